@@ -27,6 +27,7 @@ type GenerateSettings struct {
 	typeLengthers     map[string]string
 	customRecordTypes map[string]struct{}
 	enumSizes         map[string]uint8
+	recordMinSizes    map[string]int
 
 	ImportGenerationMode
 	imported          []File
@@ -440,6 +441,7 @@ func (f File) Generate(inputWriter io.Writer, settings GenerateSettings) error {
 	settings.typeLengthers = f.typeLengthers()
 	settings.customRecordTypes = f.customRecordTypes()
 	settings.enumSizes = f.enumSizes()
+	settings.recordMinSizes = f.recordMinSizes(settings)
 
 	usedTypes := f.usedTypes()
 	if settings.PackageName == "" && f.GoPackage != "" {
@@ -666,6 +668,10 @@ func writeFieldReadByter(name string, typ FieldType, w *iohelp.ErrorWriter, sett
 	if typ.Array != nil {
 		if safe {
 			writeLengthCheck(w, "4", depth)
+			if min := settings.minSize(*typ.Array); min > 0 {
+				// do not allocate for more elements than the rest of the buffer could hold
+				writeLengthCheck(w, "4+int(iohelp.ReadUint32Bytes(buf[at:]))*"+strconv.Itoa(min), depth)
+			}
 		}
 
 		writeLineWithTabs(w, "%ASGN = make([]%TYPE, iohelp.ReadUint32Bytes(buf[at:]))", depth, name, typ.Array.goString(settings))
@@ -692,6 +698,10 @@ func writeFieldReadByter(name string, typ FieldType, w *iohelp.ErrorWriter, sett
 		}
 		writeLineWithTabs(w, lnName+" := iohelp.ReadUint32Bytes(buf[at:])", depth)
 		writeLineWithTabs(w, "at += 4", depth)
+		if min := settings.minSize(FieldType{Simple: typ.Map.Key}) + settings.minSize(typ.Map.Value); safe && min > 0 {
+			// do not allocate for more entries than the rest of the buffer could hold
+			writeLengthCheck(w, "int("+lnName+")*"+strconv.Itoa(min), depth)
+		}
 		writeLineWithTabs(w, "%ASGN = make(%TYPE,"+lnName+")", depth, name, typ.Map.goString(settings))
 		writeLineWithTabs(w, "for i := uint32(0); i < "+lnName+"; i++ {", depth, name)
 		var ln string
